@@ -89,3 +89,8 @@ claim("C17",
       "For every success path of every auxiliary codec: same primitive operations, order, optional groups, announced lengths and fields on both sides; every variable-length part is written as len(X) then X and read as n then exactly n bytes, which — all other fields being fixed-width — is the static content of 'decoding consumes exactly what was encoded'; type codes agree across table, encoder and decoder and are distinct; ReadMessage re-prepends the consumed byte; invalid reason codes, wrong magic/version, unknown CLA types and malformed endpoint URIs have no accepting path without their validity test.",
       "Not decided: equality of decoded values, endpoint URI text <-> structure bijection (regexp semantics), extreme field values.",
       "DESIGN.md §3 C17")
+claim("C08",
+      "key-derivation value flow + who-may-call/who-may-write inventories, file-before-index ordering (must-pass with error guards), lockset read-modify-write rule on the store record, complete-iteration of the expiry sweep",
+      "Necessary conditions on every path/schedule: one key derivation (scrubbed ID string) for every index access; the part file is stored successfully before the index entry is written and is removed before it; collecting a fragment (query, append part, update) and insert-if-absent are one exclusive region and every other index write holds the same mutex; the sweep visits all expired items. Crash-point behaviour and map-equivalence over histories are explicitly NOT decided.",
+      "Not decided: equivalence with a reference map over histories; state after a kill at an arbitrary instruction; badger/badgerhold internals; fsync of part files.",
+      "DESIGN.md §3 C08")
